@@ -9,6 +9,28 @@ PID = "C06"
 def run(tier, v):
     e = e2ecommon.run_e2e(PID, tier, v)
     drift = e2ecommon.judge(PID, v, e, {"C06"})
+    # interleavings of maintenance vs group re-creation (Dispatch.tla: MaintStop .. Store .. MaintDelete)
+    # driven on the real dispatcher through the blocking hooks maint.destroyed / maint.delete
+    import os, re
+    from lib.vlib import log
+    wd = os.path.join(vlib.OUT, PID)
+    binp = vlib.go_build_test(PID, "e2e")
+    tr = os.path.join(wd, "trace.ndjson")
+    out = os.path.join(wd, "maint.json")
+    rc, txt = vlib.go_run_test(binp, "TestMaintRace$", ["-trace", tr, "-out", out])
+    if rc != 0:
+        raise vlib.Inconclusive("maintenance race driver failed:\n" + txt[-2000:])
+    mr = vlib.load_result(out)
+    if mr["nontrivial"] < mr["cases"] // 2:
+        raise vlib.Inconclusive("the maintenance sweep was parked in only %d of %d runs" % (mr["nontrivial"], mr["cases"]))
+    r = vlib.tlc(PID, "trace_maint", "Trace_AM", "Trace_AM.cfg", workers=1, timeout=900, files=[tr])
+    t2 = open(r.stdout_path, errors="replace").read()
+    m = re.search(r'^"@@V (.*)"$', t2, re.M)
+    if not m or re.search(r'"@@REJECT"', t2) or r.error or r.rc != 0:
+        raise vlib.Inconclusive("Trace_AM on the maintenance-race runs gave no verdict (see %s)" % r.stdout_path)
+    e2 = dict(viols=json.loads(json.loads('"' + m.group(1) + '"')), lines=open(tr).readlines())
+    drift += e2ecommon.judge(PID, v, e2, {"C06"})
+    log("  maintenance race: %d gated runs, %d events, %d clause violations" % (mr["cases"], len(e2["lines"]), len(e2["viols"])))
     ok_attempts = sum(1 for l in e["lines"] if '"ev":"attempt"' in l and '"outcome":"ok"' in l)
     if ok_attempts < 50:
         raise vlib.Inconclusive("too few delivered notifications (%d)" % ok_attempts)
